@@ -89,7 +89,7 @@ def key_of(clause, ln):
     return f"{clause}:{ln['r']['kind']}"
 
 
-def judge_groups(ctx: Ctx, groups, clauses=CLAUSES, kind="c03"):
+def judge_groups(ctx: Ctx, groups, clauses=CLAUSES, kind="c03", key_prefix=""):
     results = pmap(rt.run_group, groups, workers=ctx.workers, chunksize=8)
     lines, cfgs = [], {}
     for t, (g, res) in enumerate(zip(groups, results)):
@@ -120,7 +120,7 @@ def judge_groups(ctx: Ctx, groups, clauses=CLAUSES, kind="c03"):
                       "pairs": [["".join(map(chr, k)), "".join(map(chr, v))] for k, v in ln["q"]["pairs"]]},
                 "rules_text": [rt.rule_string(x) for x in cfg["rules"]], "observed": ln["r"]["kind"],
                 "observed_rule": ln["r"]["rule"]}
-        ctx.violation(key_of(r["clause"], ln), r["clause"], case, kind=kind)
+        ctx.violation(key_prefix + key_of(r["clause"], ln), r["clause"], case, kind=kind)
     return lines
 
 
@@ -145,6 +145,47 @@ def check_universe_file():
 
 
 REPO_PREFIX = "RepoTests."
+
+
+def meta_literal_groups(ctx: Ctx, rng):
+    """Literal text with regular-expression metacharacters in every position of a segment + near-miss paths."""
+    groups = []
+    for rules, paths in rt.meta_groups(rng, ctx.quick):
+        s, m = rng.choice(settings())
+        groups.append((rt.make_cfg(rules, s, m), True, [(p, "GET", rt.NOQ) for p in paths]))
+    return groups
+
+
+def judge_histories(ctx: Ctx, hists, kind="c03-history"):
+    """Map histories: rules are added, the map is bound / matched / built / inspected, more rules are added (also through
+    Submount and a RuleFactory), and matched again; every match is judged against Expected of the rule set present at
+    that moment (so the final outcomes are those of the final rule set in every insertion order and interleaving)."""
+    results = pmap(rt.run_history, hists, workers=ctx.workers, chunksize=4)
+    lines, meta = [], {}
+    for hi, (h, segs) in enumerate(zip(hists, results)):
+        for si, seg in enumerate(segs):
+            tid = f"hist{hi}.{si}"
+            for ln in seg:
+                ln["t"] = tid
+                if ln["op"] == "match":
+                    meta[(tid, ln["i"])] = (hi, ln)
+                    ctx.count(1)
+                    if ln["r"]["kind"] in ("match", "redirect", "mna"):
+                        ctx.nontrivial.add(("hist", hi, si, ln["i"]))
+            lines.extend(seg)
+    ctx.notes["history_maps"] = len(hists)
+    ctx.notes["history_matches"] = len(meta)
+    ctx.notes["history_matches_before_complete"] = sum(
+        1 for (hi, ln) in meta.values() if any(o[0].startswith("add") for o in hists[hi][1][ln["opno"]:]))
+    for r in ctx.judge(AREA, "RoutingTrace", lines, batch=2500):
+        if r["clause"] not in CLAUSES:
+            continue
+        hi, ln = meta[(r["t"], r["i"])]
+        base, ops = hists[hi]
+        case = {"base": base, "ops": ops[: ln["opno"] + 1], "path": "".join(map(chr, ln["path"])), "method": ln["method"],
+                "observed": ln["r"]["kind"], "observed_rule": ln["r"]["rule"],
+                "rules_text": [o[0] + ":" + ",".join(rt.rule_string(x) for x in (o[1:2] if o[0] == "add" else o[-1])) for o in ops[: ln["opno"] + 1] if o[0].startswith("add")]}
+        ctx.violation(f"History.{r['clause']}:{ln['r']['kind']}", r["clause"], case, kind=kind)
 
 
 def repo_test_calls(ctx: Ctx, clauses, kind):
@@ -229,11 +270,22 @@ def run(ctx: Ctx):
     groups = model_groups(ctx) + build_groups(ctx)
     ctx.notes["maps"] = len(groups)
     judge_groups(ctx, groups)
+    import random as _random
+    mrng = _random.Random(ctx.seed + 3)
+    mg = meta_literal_groups(ctx, mrng)
+    ctx.notes["meta_literal_maps"] = len(mg)
+    judge_groups(ctx, mg, key_prefix="MetaLiteral.")
+    judge_histories(ctx, rt.make_histories(_random.Random(ctx.seed + 5), ctx.quick))
     repo_test_calls(ctx, CLAUSES, "c03")
 
 
 def replay(ctx: Ctx, data):
     case = data["case"]
+    if data.get("kind") == "c03-history":
+        ctx.nontrivial.update({("replay", 0), ("replay", 1)})
+        ctx.sample({"history": case["rules_text"], "path": case["path"], "method": case["method"]})
+        judge_histories(ctx, [(case["base"], case["ops"])])
+        return
     g = (case["cfg"], True, [(case["path"], case["method"], case["q"])])
     ctx.nontrivial.update({("replay", 0), ("replay", 1)})
     ctx.sample({"rules": case["rules_text"], "path": case["path"], "method": case["method"]})
